@@ -2732,3 +2732,14 @@ mod tests {
         assert_matches!(protocol_state.acquire_free_packet_id(1), Err(GneissError::InternalStateError(_)));
     }
 }
+#[cfg(feature = "verif")]
+impl ClientOperation {
+    pub(crate) fn verif_packet_id(&self) -> Option<u16> { self.packet_id }
+}
+
+#[cfg(feature = "verif")]
+impl ProtocolState {
+    pub(crate) fn verif_ack_timeouts(&self) -> Vec<(u64, Instant)> {
+        self.operation_ack_timeouts.iter().map(|record| (record.0.id, record.0.timeout)).collect()
+    }
+}
